@@ -6,7 +6,7 @@ From Coq Require Import NArith List Bool.
 Import ListNotations.
 Open Scope N_scope.
 
-Definition run := (N * N)%type.          (* (start, length) *)
+Notation run := (N * N)%type (only parsing).    (* (start, length) *)
 Definition run_end (r : run) : N := fst r + snd r.
 
 (* ---- validity ---- *)
